@@ -150,6 +150,7 @@ def build(rng, tier):
       rules.append(rule('B', [(None, V('x'))], call('A', V('x')), distinct=True))
       if rng.random() < 0.4:
         rules.append(rule('B', [(None, V('y'))], conj(call('A', V('x')), call('E', V('y'), V('x'))), distinct=True))
+        t = 'mutual_cut2'     # two recursive rules per step: the non-iterative unfolding doubles with every level
       comp = ['A', 'B']
     derived('A', 1, agg=True)
     derived('B', 1, agg=True)
@@ -171,7 +172,7 @@ def build(rng, tier):
   depth = rng.choice(depths)
   if small_only:
     depth = rng.choice([1, 2, 3])
-  heavy = t in ('mutual_flat', 'tc_nonlinear', 'mutual_cut3')
+  heavy = t in ('mutual_flat', 'tc_nonlinear', 'mutual_cut3', 'mutual_cut2')
   opts = ()
   if depth is not None and rng.random() < 0.2:
     opts = (('iterative', 'true' if (depth <= 20 or rng.random() < 0.5) else 'false'),)
